@@ -8,6 +8,7 @@ pub mod c06;
 pub mod renderutil;
 pub mod c11;
 pub mod c13;
+pub mod c15;
 pub mod c16;
 pub mod c17;
 pub mod c18;
@@ -24,6 +25,7 @@ pub fn lookup(id: &str) -> Option<&'static dyn Prop> {
         "C06" => &c06::C06,
         "C11" => &c11::C11,
         "C13" => &c13::C13,
+        "C15" => &c15::C15,
         "C16" => &c16::C16,
         "C17" => &c17::C17,
         "C18" => &c18::C18,
